@@ -41,11 +41,20 @@ Cases ==
 \* the supply path: the deployed router obtained through every flavour's real constructor from the
 \* flavour's real Config, for everything the operator can write for HTTPReadOnly; w = what the
 \* operator configured (that is what the property is judged with)
+FlavourSpellings == {"exact", "query", "noPrefix", "trailingSlash", "encodedLetter"}
 FlavourCases ==
     IF ~FlavourCross THEN {} ELSE
-    {c \in [m : Methods, t : TplNames, sps : {<<a>> : a \in Spellings}, h : {DefaultHdr},
-            flavour : Flavours, cfg : {"unset", "true", "false"}] :
-        ApplicableAll(BasePath(Tpl(c.t)), c.sps)}
+    {c \in [m : Methods, t : TplNames, sps : {<<a>> : a \in Spellings \cap FlavourSpellings}, h : {DefaultHdr},
+            flavour : Flavours, cfg : Sources] :
+        ApplicableAll(BasePath(Tpl(c.t)), c.sps) /\ ParseOK(c.cfg)}
+
+\* every (flavour, source): the harness runs the real command's configuration parsing for each
+ConfigCases == IF FlavourCross THEN [flavour : Flavours, cfg : Sources] ELSE {}
+ConfigInv == stage # "" => \A c \in ConfigCases :
+    C18_Config(c.flavour, c.cfg, IF ParseOK(c.cfg) THEN "ok" ELSE "error", ConfiguredReadOnly(c.flavour, c.cfg))
+ASSUME \A c \in ConfigCases :
+    PrintT(<<"CFG", ToJson([flavour |-> c.flavour, cfg |-> c.cfg, parsed |-> (IF ParseOK(c.cfg) THEN "ok" ELSE "error"),
+                           ro |-> ConfiguredReadOnly(c.flavour, c.cfg)])>>)
 
 IsFlavour(c) == "flavour" \in DOMAIN c
 JudgedW(c) == IF IsFlavour(c) THEN ConfiguredWrite(c.flavour, c.cfg) ELSE c.w
@@ -81,7 +90,7 @@ EmitInv ==
     stage = "outer" =>
         PrintT(<<"CASE", ToJson([m |-> cs.m, t |-> cs.t, sps |-> cs.sps, w |-> JudgedW(cs), h |-> cs.h, stack |-> StackOf(cs), ui |-> UiOf(cs),
                                  flavour |-> (IF IsFlavour(cs) THEN cs.flavour ELSE "direct"),
-                                 cfg |-> (IF IsFlavour(cs) THEN cs.cfg ELSE "-"),
+                                 cfg |-> (IF IsFlavour(cs) THEN cs.cfg ELSE NoSource),
                                  target |-> Target(PathOf(cs)),
                                  raw |-> RawSegs(PathOf(cs)), dec |-> DecSegs(PathOf(cs)),
                                  exp |-> SetToSeq(Serve(cs.m, PathOf(cs), EffectiveW(cs), cs.h, StackOf(cs), UiOf(cs)))])>>)
